@@ -564,6 +564,13 @@ func programs() []program {
 		shared := &traits.Metadata{Traits: []*traits.TraitMetadata{{Name: "B", More: map[string]string{"z": "1"}}, {Name: "A"}}}
 		par(func() { a.MergeMetadata(shared) }, func() { b.MergeMetadata(shared) })
 	})
+	add("metadata/two devices of one Collection: MergeMetadata(a,m)||MergeMetadata(b,m), the same message m", func() {
+		c := metadatapb.NewCollection()
+		c.UpdateMetadata("a", &traits.Metadata{Name: "a", Traits: []*traits.TraitMetadata{{Name: "B", More: map[string]string{"k": "v"}}}}, resource.WithCreateIfAbsent())
+		c.UpdateMetadata("b", &traits.Metadata{Name: "b", Traits: []*traits.TraitMetadata{{Name: "B", More: map[string]string{"k": "w"}}}}, resource.WithCreateIfAbsent())
+		shared := &traits.Metadata{Traits: []*traits.TraitMetadata{{Name: "B", More: map[string]string{"z": "1"}}, {Name: "A"}}}
+		par(func() { c.MergeMetadata("a", shared) }, func() { c.MergeMetadata("b", shared) })
+	})
 	add("metadata/Merge||Get||UpdateTrait", func() {
 		md := metadatapb.NewModel()
 		md.UpdateMetadata(&traits.Metadata{Name: "n", Traits: []*traits.TraitMetadata{{Name: "B", More: map[string]string{"k": "v"}}}})
